@@ -140,7 +140,7 @@ def main():
     from vmon import core
     chk = load_check(pid)
     nshards = a.shards or getattr(chk, "SHARDS", {}).get(a.tier) or (6 if a.tier == "quick" else 16)
-    work = os.path.join(HERE, ".work", pid)
+    work = os.path.join(HERE, ".work", pid, f"run-{os.getpid()}")       # private to this invocation (concurrent runs do not collide)
     os.makedirs(work, exist_ok=True)
     t0 = time.time()
     if hasattr(chk, "prepare"):
@@ -253,6 +253,9 @@ def main():
     if evaluations == 0:
         inconclusive.append({"reason": "no case evaluated"})
 
+    import shutil
+    if not inconclusive:
+        shutil.rmtree(work, ignore_errors=True)
     wall = time.time() - t0
     sample_list = [{"label": k, "case": v} for k, v in list(samples.items())[:12] if k != "harness_error"]
     ev = {
